@@ -146,6 +146,18 @@ def o22(ctx):
         return
     ctx.touched("starfileio.Token.tokenize", WR)
     ctx.count(1, {"tokenizer constants": c})
+    # a token carries the characters it was cut from: Token.__init__ stores its value argument as it is
+    mi, fi = ctx.prog.func("starfileio.Token.__init__")
+    ctx.touched("starfileio.Token.__init__")
+    vparam = fi.args.args[2].arg if len(fi.args.args) > 2 else None
+    sets = [n for n in ast.walk(fi) if isinstance(n, ast.Assign) and any(isinstance(t, ast.Attribute) and t.attr == "value" for t in n.targets)]
+    rebinding = [n for n in ast.walk(fi) if isinstance(n, (ast.Assign, ast.AugAssign)) and any(
+        isinstance(t, ast.Name) and t.id == vparam for t in (n.targets if isinstance(n, ast.Assign) else [n.target]))]
+    ctx.count(1)
+    if vparam is None or len(sets) != 1 or not (isinstance(sets[0].value, ast.Name) and sets[0].value.id == vparam) or rebinding:
+        bad = (rebinding or sets or [fi])[0]
+        ctx.finding("starfileio.Token.__init__", bad, "a token must keep the text it was cut from unchanged: text values (quoted names, "
+                    "values with leading or trailing characters) are otherwise altered on read while the file is intact", bad, mi)
     m, fn = ctx.prog.func(WR)
     fvar = None
     for n in ast.walk(fn):
@@ -275,6 +287,24 @@ def o23(ctx):
     if not ok_round:
         ctx.finding(WR, "rounding of the tables", "every table must be rounded to float_precision decimals and stored back "
                     "before it is formatted (frames[i] = f.round(float_precision) for all frames)", fn, m)
+    # (a2) blocks are written in the order given: the three parallel lists (tables, specifiers, comments) are not permuted
+    list_params = [a.arg for a in fn.args.args if a.arg in ("frames", "specifiers", "comments")]
+    if len(list_params) != 3:
+        raise Unsupported("block list parameters of Starfile.write not found", fn)
+    for st in ast.walk(fn):
+        if not (isinstance(st, ast.Assign) and any(isinstance(t, ast.Name) and t.id in list_params for t in st.targets)):
+            continue
+        ctx.count(1)
+        v_ = st.value
+        reorder = any(isinstance(x, ast.Call) and isinstance(x.func, ast.Name) and x.func.id in ("sorted", "reversed") for x in ast.walk(v_)) \
+            or any(isinstance(x, ast.Call) and isinstance(x.func, ast.Attribute) and x.func.attr in ("argsort", "sort_values") for x in ast.walk(v_)) \
+            or any(isinstance(x, ast.Slice) and x.step is not None for x in ast.walk(v_)) \
+            or any(isinstance(c_, ast.ListComp) and isinstance(c_.elt, ast.Subscript) and isinstance(c_.elt.value, ast.Name) and c_.elt.value.id in list_params
+                   and not (isinstance(c_.generators[0].iter, ast.Call) and isinstance(c_.generators[0].iter.func, ast.Name)
+                            and c_.generators[0].iter.func.id == "range") for c_ in ast.walk(v_))
+        if reorder:
+            ctx.finding(WR, st, "the blocks are re-ordered before writing: the file (and what Starfile.read returns) must hold the blocks in the "
+                        "order the caller gave, so that position k of the three returned lists is the k-th table written", st, m)
     # (b) the cell formatter, evaluated
     fmt_calls = [n for n in ast.walk(fn) if isinstance(n, ast.Call) and isinstance(n.func, ast.Attribute)
                  and n.func.attr in ("map", "applymap") and n.args and isinstance(n.args[0], ast.Name)
